@@ -529,6 +529,39 @@ func (w *World) cancelSigShape() *draft {
 	return d
 }
 
+// a correctly signed, balanced transaction of one asset spending existing outputs of
+// ANOTHER asset (alone, or next to a same-asset input): refused whatever the fork flag
+func (w *World) crossAsset() *draft {
+	w.unlockAll()
+	from, to := w.other, common.XINAssetId
+	if w.r.Bool() {
+		from, to = to, from
+	}
+	l := w.pick(from, w.r.Range(1, 2))
+	if len(l) == 0 {
+		l = w.fund(from, []*big.Int{big.NewInt(int64(w.r.Range(1, 100000)))})
+	}
+	if w.r.Chance(1, 3) {
+		own := w.pick(to, 1)
+		if len(own) == 0 {
+			own = w.fund(to, []*big.Int{big.NewInt(int64(w.r.Range(1, 100000)))})
+		}
+		if w.r.Bool() {
+			l = append(own, l...)
+		} else {
+			l = append(l, own...)
+		}
+	}
+	tx := common.NewTransactionV5(to)
+	w.addInputs(tx, l)
+	total := sumOf(l)
+	if total.Sign() == 0 {
+		total = big.NewInt(1)
+	}
+	w.payOut(tx, total, w.r.Range(1, 2))
+	return &draft{kind: "cross-asset", tx: tx, ins: l}
+}
+
 // word-boundary sums: every single amount stays below B = 2^k while the running sums
 // of the inputs and/or of the outputs cross B; outputs equal the inputs, exceed them by
 // exactly B or 2B, or fall short by B
@@ -964,7 +997,7 @@ var builders = []func(*World) *draft{
 	(*World).mint, (*World).deposit, (*World).deposit, (*World).withdrawalSubmit, (*World).withdrawalClaim,
 	(*World).nodePledge, (*World).nodeAccept, (*World).nodeCancel, (*World).nodeCancel, (*World).nodeRemove,
 	(*World).removeOverScript, (*World).custodianUpdate, (*World).cancelOverScript,
-	(*World).wordSum, (*World).wordSum, (*World).depositSigShape, (*World).acceptSigShape, (*World).cancelSigShape,
+	(*World).crossAsset, (*World).wordSum, (*World).wordSum, (*World).depositSigShape, (*World).acceptSigShape, (*World).cancelSigShape,
 }
 
 // Generate draws one case.  Encoding a structurally impossible transaction
@@ -1023,7 +1056,7 @@ func Generate(r *vh.Rand, mix Mix, only func(*World) *draft) (cs Case, ok bool) 
 	if w.broken != "" {
 		muts = append(muts, "view:"+w.broken)
 	}
-	cs = Case{Kind: kind, Muts: muts, View: w.Snapshot(), Tx: hex.EncodeToString(raw), Ts: w.Ts, Fork: r.Chance(1, 6)}
+	cs = Case{Kind: kind, Muts: muts, View: w.Snapshot(), Tx: hex.EncodeToString(raw), Ts: w.Ts, Fork: r.Chance(1, 3)}
 	return cs, true
 }
 
@@ -1113,6 +1146,8 @@ func Corpus(r *vh.Rand) []Case {
 	wordCase("wordsum-in1-out-2^63+1", []*big.Int{big.NewInt(1)}, []*big.Int{p63, big.NewInt(1)})
 	wordCase("wordsum-in3-out-2^32+3", []*big.Int{big.NewInt(3)}, []*big.Int{p31, p31, big.NewInt(3)})
 	wordCase("wordsum-in-2^64+2-out2", []*big.Int{p64m1, big.NewInt(3)}, []*big.Int{big.NewInt(2)})
+	add("cross-asset", (*World).crossAsset, nil)
+	add("cross-asset-2", (*World).crossAsset, nil)
 	add("mint-plus-ordinary-input", (*World).transfer, func(d *draft) {
 		d.tx.Inputs = append(d.tx.Inputs, &common.Input{Mint: &common.MintData{Group: "UNIVERSAL", Batch: 1 << 40, Amount: integer(sumOutputs(d.tx))}})
 		d.ins = append(d.ins, nil)
